@@ -412,6 +412,12 @@ int main(int argc, char** argv)
             if (ck::ThreadCount() != 1) { printf("HARNESS-ERROR C19 process is not single-threaded before fork\n"); exit(2); }
             std::vector<Scen> sc = Scenarios(tip, big);
             if (const char* mj = getenv("VX_C19_MAXJOBS")) sc.resize(std::min<size_t>(sc.size(), atoi(mj)));
+            {
+                // warm-up in the parent (first-use initialisation of filesystem/locale code is then inherited by the forks)
+                fs::create_directories(g_scratch / fs::u8path("warm"));
+                for (const auto& e : fs::directory_iterator(node.BlocksDir())) (void)e.is_regular_file();
+                (void)Snapshot(node);
+            }
             fp::Pool pool;
             pool.isolate_jobs = true;
             pool.workers = std::min<unsigned>(vx::ncpu(), 12);
